@@ -719,6 +719,34 @@ fn emit_split(out: &mut Out, text: &str) {
 	}
 }
 
+/// `C18 node <hex>`: the second entry point `VPLNode::from_str` (test helper of the crate) against `parse_vpl`:
+/// the same operation for texts with one operation, an error for invalid texts, the documented assertion otherwise
+pub(crate) fn emit_node(out: &mut Out, text: &str) {
+	let real = match catch(|| VPLNode::from_str(text).map(|n| dump_rnode(&n))) {
+		Ok(Ok(d)) => format!("ok {d}"),
+		Ok(Err(_)) => "err".into(),
+		Err(_) => "panic".into(),
+	};
+	let expected = match ref_tree(text) {
+		Some(p) if p.len() == 1 => format!("ok {}", dump_tnode(&p[0])),
+		Some(_) => "panic".into(),
+		None => "err".into(),
+	};
+	let case = format!("C18 node {}", hs(text));
+	out.case(&case, &real, true);
+	out.count(&format!("node_{}", &real[..real.len().min(2)]));
+	if real == expected {
+		out.oracle(true, "", json!(null), json!(null));
+	} else {
+		out.oracle(
+			false,
+			&format!("C18 node: VPLNode::from_str({:?}) gives {} but parse_vpl / the text say {}", trunc(text, 120), trunc(&real, 160), trunc(&expected, 160)),
+			json!({"kind": "node-from-str", "impl": &real[..real.len().min(5)]}),
+			json!({"case": case, "text": text}),
+		);
+	}
+}
+
 /// markers (`layer_name` of the update stages) in the order the built operation prints them: outermost first
 pub(crate) fn debug_markers(dbg: &str) -> Vec<String> {
 	let pat = "layer_name: \"";
@@ -1328,6 +1356,7 @@ fn replay_line(out: &mut Out, rt: &tokio::runtime::Runtime, dir: &Path, line: &s
 		}
 		"build" => emit_build(out, rt, dir, &text, None, "replay"),
 		"split" => emit_split(out, &text),
+		"node" => emit_node(out, &text),
 		"chain" => emit_chain(out, rt, dir, &text, None),
 		_ => {}
 	}
@@ -1531,6 +1560,18 @@ pub fn run(args: &Args) {
 			emit_split(&mut out, &mt);
 		} else {
 			emit_split(&mut out, &text);
+		}
+	}
+	for t in ["a", "a k=1 [b|c]", "a|b", "a|b|c", "", "a k", " a ", "a [b] | c"] {
+		emit_node(&mut out, t);
+	}
+	for i in 0..args.n(300, 6000) {
+		let (text, _) = rng.pick(&valid_texts).clone();
+		if i % 3 == 0 {
+			let (mt, _) = mutate(&mut rng, &text);
+			emit_node(&mut out, &mt);
+		} else {
+			emit_node(&mut out, &text);
 		}
 	}
 	let mut counter = 0usize;
